@@ -540,8 +540,9 @@ From SV Require Import Common.Prelude Model.Json Model.Expr Model.Identity Gen.I
 Import ListNotations. Open Scope string_scope.
 Definition sl_eqb (a b : list string) : bool :=
   Nat.eqb (List.length a) (List.length b) && forallb (fun p => String.eqb (fst p) (snd p)) (combine a b).
-Definition case_ok (c : config * list (string * string) * list (string * string) *
-                        (list string * list string * string * string * string * list string * list string)) : bool :=
+Definition caseT : Type := (config * list (string * string) * list (string * string) *
+                        (list string * list string * string * string * string * list string * list string))%%type.
+Definition case_ok (c : caseT) : bool :=
   match c with
   | (cfg, tU, tH, (us, ns, plid, semid, cfgid, req, runs)) =>
       let U := lookup tU in let H := lookup tH in
@@ -551,7 +552,7 @@ Definition case_ok (c : config * list (string * string) * list (string * string)
       sl_eqb (map (fun k => match impl_run_ids U H (EBuild cfg :: repeat (ERun 0 true) k) 0 with
                             | Some x => i_plid x | None => "none" end) (seq 0 (List.length runs))) runs
   end.
-Definition cases := [
+Definition cases : list caseT := [
 %s
 ].
 Eval vm_compute in bad_indices case_ok cases 0.
@@ -778,8 +779,10 @@ def _set(v, path, new):
 def _other(v):
     if isinstance(v, bool):
         return not v
-    if isinstance(v, (int, float)):
+    if isinstance(v, int):
         return v + 1
+    if isinstance(v, float):
+        return v * 2 + 1      # v + 1 == v for large floats
     if isinstance(v, str):
         return v + "x"
     return 0
